@@ -5,9 +5,10 @@ LEVEL = "other"
 EXHAUSTIVE = True
 EXPLANATION = ("Reproducibility clause: no randomly seeded hash container is iterated and no clock / random / environment source is called "
                "anywhere in the library (outside ide) or llw, so two runs execute the same deterministic program on the same input. "
-               "Independence of declaration order (the phase-interleaving matrix of DESIGN section 3) is not implemented and not decided.")
+               "Of the declaration-order clause one necessary condition is decided (FIX): the flags that drive the semantic pass's fixpoint loops are or-accumulated inside the loops over the declarations, never overwritten. The phase-interleaving matrix of DESIGN section 3 is not implemented; independence of declaration order as such is not decided.")
 
 
 def run(ctx, rep):
     lrules.det_rules(ctx, rep)
+    lrules.fixpoint_rule(ctx, rep)
     rep.assume("dependencies (logos, codespan-reporting, dprint-core, rustc-hash) are deterministic")
